@@ -32,12 +32,12 @@ TIERS = {
     "quick": dict(mc_cfg="MC_Ledger_quick.cfg", mc_timeout=300,
                   batches=[(120, 10, "1", "default"), (30, 10, "2p64", "default"), (48, 8, "1", "sweep"),
                            (30, 12, "1", "multi"), (2, 8, "1", "featsweep"), (32, 8, "1", "impexp"),
-                           (24, 12, "1", "blocks")]),
+                           (24, 12, "1", "blocks"), (24, 12, "1", "strings")]),
     "thorough": dict(mc_cfg="MC_Ledger_thorough.cfg", mc_timeout=3000,
                      batches=[(1500, 12, "1", "default"), (300, 12, "2p53", "default"), (300, 12, "2p63", "default"),
                               (300, 12, "2p64", "default"), (300, 12, "1e30", "default"), (480, 10, "prime", "sweep"),
                               (400, 14, "1", "multi"), (16, 10, "1", "featsweep"), (400, 10, "1", "impexp"),
-                              (100, 10, "2p64", "impexp"), (300, 14, "1", "blocks")]),
+                              (100, 10, "2p64", "impexp"), (300, 14, "1", "blocks"), (300, 12, "1", "strings")]),
 }
 
 # outcome mismatches that no tagged predicate explains are attributed by operation kind
@@ -326,14 +326,17 @@ def evaluate(c, prop, d, extra_preds=()):
             owner = KIND_OWNER.get(op.get("k"), None)
         if p is None and cases.get(case, {}).get("kind") == "impexp":
             owner = "C11"   # an unexplained outcome in an export/import/write-on-the-copy history is C11's
-        if owner == prop or pred in extra_preds:
+        # extra_preds: predicate names this property also owns, or (name, history kind) pairs
+        if owner == prop or pred in extra_preds or (pred, cases.get(case, {}).get("kind")) in extra_preds:
             mine.setdefault((pred, case), ln)
         else:
             others[pred] = others.get(pred, 0) + 1
     # projection failures (off-grid timestamp, amount not divisible by the scale): exactness properties
     for pf in res["projection"]:
-        if prop == "C36" or (prop in ("C01", "C02") and "multiple of the scale" in pf["msg"]):
-            mine.setdefault(("Projection:" + pf["msg"][:80], pf["case"]), 0)
+        m_kind = re.search(r"after step \d+ \((\w+),", pf["msg"])
+        kind_owner = KIND_OWNER.get(m_kind.group(1)) if m_kind else None
+        if prop == "C36" or (prop in ("C01", "C02") and "multiple of the scale" in pf["msg"]) or prop == kind_owner:
+            mine.setdefault(("Projection:" + re.sub(r"\d+", "N", pf["msg"])[:90], pf["case"]), 0)
         else:
             others["Projection"] = others.get("Projection", 0) + 1
     if others:
